@@ -4,12 +4,12 @@ go 1.22.0
 
 require (
 	github.com/containerd/nri v0.6.1
+	github.com/containerd/ttrpc v1.2.7
 	sigs.k8s.io/yaml v1.3.0
 )
 
 require (
 	github.com/containerd/log v0.1.0 // indirect
-	github.com/containerd/ttrpc v1.2.7 // indirect
 	github.com/golang/protobuf v1.5.3 // indirect
 	github.com/knqyf263/go-plugin v0.8.1-0.20240827022226-114c6257e441 // indirect
 	github.com/opencontainers/runtime-spec v1.1.0 // indirect
